@@ -244,9 +244,14 @@ static int v_stat(const char *path, struct stat *st)
 	st->st_mode = S_IFDIR | 0755;
 	return 0;
 }
+/* A harness may define GFS_RMDIR_HOOK(dir_id) to judge the removal of a directory by its own property. */
+#ifndef GFS_RMDIR_HOOK
+#define GFS_RMDIR_HOOK(d) ((void) 0)
+#endif
 static int v_rmdir(const char *path)
 {
 	int d = gfs_dir_id(path);
+	if (d >= 0) GFS_RMDIR_HOOK(d);
 	if (d < 0) { /* "(null)/loom.l": rproc.loomdir when OVNI_TMPDIR is unset is never used */
 		V_ASSERT(0, "env: rmdir on a path outside the modelled namespace");
 		return -1;
